@@ -754,7 +754,7 @@ func RenderFileAs(f *FileSpec, pkgAuto bool, regSuffix string) (src, side string
 			if strings.HasPrefix(line, "// "+s.Name+" runs one generated") {
 				inProg = true
 			}
-			if inProg && instrLine < 0 && strings.Contains(line, fmt.Sprintf("%q", rt.DirName(s))) {
+			if inProg && instrLine < 0 && strings.Contains(line, ".InstrumentFlow(") {
 				instrLine = i
 			}
 		}
